@@ -10,7 +10,7 @@
 (*   legend, conf0, conf1 (digests of the caller's configuration)]          *)
 (* Attribute maps are sequences of [key, value] pairs of strings.           *)
 (***************************************************************************)
-EXTENDS Dec, FiniteSets, TLC, Json, IOUtils
+EXTENDS Dec, FiniteSets, TLC, Json, IOUtils, Integers
 
 Batch == JsonDeserialize(IOEnv.TRACE_FILE)
 VARIABLES ci, verd, stat
@@ -47,6 +47,10 @@ Shown(v, l) == DLeq(DAbs((DJ(v) \otimes DJ(l.den)) \ominus DJ(l.num)),
 \* a / b <= c / d  for positive denominators
 LeqFr(a, b) == DLeq(DJ(a.num) \otimes DJ(b.den), DJ(b.num) \otimes DJ(a.den))
 
+\* position of a colour along the cold -> warm axis of the scale (a scalar product, integers)
+Along(c, rgb) == (rgb[1] - c.cold[1]) * (c.warm[1] - c.cold[1]) + (rgb[2] - c.cold[2]) * (c.warm[2] - c.cold[2])
+                 + (rgb[3] - c.cold[3]) * (c.warm[3] - c.cold[3])
+
 CaseClauses(c) ==
   LET N     == Names(c)
       rn    == {c.nodes[i].name : i \in DOMAIN c.nodes}
@@ -56,36 +60,42 @@ CaseClauses(c) ==
       maxL(n) == \A m \in N : LeqFr(LossOf(c, m), LossOf(c, n))
       posMax  == \E n \in N : DLt(DZero, DJ(LossOf(c, n).num))
   IN
-  << Cl("C19.Renders", TRUE, ok),
-     Cl("C19.Nodes", ok, rn = N \cup (IF c.heat THEN {"Scale"} ELSE {}) /\ Len(c.nodes) = Cardinality(rn)),
+  << \* (a heat diagram of a system whose solve() raises its documented errors has no losses to show: C03's matter)
+     Cl("C19.Renders", ~c.solve_failed, ok),
+     \* one node per component and nothing else - apart from the heat-scale legend (one further node, whatever its name)
+     Cl("C19.Nodes", ok, /\ N \subseteq rn /\ Len(c.nodes) = Cardinality(rn)
+                         /\ Cardinality(rn \ N) <= (IF c.heat THEN 1 ELSE 0)),
      Cl("C19.Edges", ok, {<<c.edges[i][1], c.edges[i][2]>> : i \in DOMAIN c.edges} = edgesExp
                          /\ Len(c.edges) = Cardinality(edgesExp)),
      Cl("C19.Clusters", ok,
         /\ {c.clusters[i].label : i \in DOMAIN c.clusters} = (IF clOn THEN Groups(c) ELSE {})
         /\ Len(c.clusters) = (IF clOn THEN Cardinality(Groups(c)) ELSE 0)
         /\ \A n \in N \cap rn : NodeOf(c, n).cluster = (IF c.group THEN CompOf(c, n).group ELSE "")),
+     \* every configured attribute shows with the value the precedence default -> kind -> name (cluster: default -> group)
+     \* yields; attributes the renderer adds on its own account (a label, a tooltip) are not judged
      Cl("C19.ClusterAttrs", ok /\ clOn,
         \A i \in DOMAIN c.clusters :
-           AsSet(c.clusters[i].attrs) =
-             ({p \in AsSet(c.conf.cluster.default) : p[1] \notin Keys(OverOf(c.conf.cluster, c.clusters[i].label))}
-              \cup AsSet(OverOf(c.conf.cluster, c.clusters[i].label))) \cup {<<"label", c.clusters[i].label>>}),
+           (({p \in AsSet(c.conf.cluster.default) : p[1] \notin Keys(OverOf(c.conf.cluster, c.clusters[i].label))}
+              \cup AsSet(OverOf(c.conf.cluster, c.clusters[i].label))) \cup {<<"label", c.clusters[i].label>>})
+             \subseteq AsSet(c.clusters[i].attrs)),
      Cl("C19.Precedence", ok,
         \A n \in N \cap rn :
            LET got == AsSet(NodeOf(c, n).attrs) exp == ExpAttrs(c, n) IN
-           IF c.heat THEN {p \in got : p[1] \notin HeatKeys} = {p \in exp : p[1] \notin HeatKeys}
-           ELSE got = exp),
-     Cl("C19.EdgeAttrs", ok, \A i \in DOMAIN c.edges : AsSet(c.edges[i][3]) = AsSet(c.conf.edge)),
+           IF c.heat THEN {p \in exp : p[1] \notin HeatKeys} \subseteq got
+           ELSE exp \subseteq got),
+     Cl("C19.EdgeAttrs", ok, \A i \in DOMAIN c.edges : AsSet(c.conf.edge) \subseteq AsSet(c.edges[i][3])),
      Cl("C19.ConfigUnchanged", TRUE, c.conf0 = c.conf1),
      Cl("C19.HeatLabel", ok /\ c.heat,
         \A n \in N \cap rn : NodeOf(c, n).hasval /\ Shown(NodeOf(c, n).val, LossOf(c, n))),
-     Cl("C19.HeatOrder", ok /\ c.heat,
-        \A n, m \in N \cap rn : LeqFr(LossOf(c, n), LossOf(c, m)) => NodeOf(c, n).rgb[1] <= NodeOf(c, m).rgb[1]
-                                                                   /\ NodeOf(c, n).rgb[3] >= NodeOf(c, m).rgb[3]),
-     Cl("C19.HeatExtremes", ok /\ c.heat,
+     \* colours are ordered as the losses: along the cold -> warm axis of the scale the legend shows
+     Cl("C19.HeatOrder", ok /\ c.heat /\ c.hasscale,
+        \A n, m \in N \cap rn : LeqFr(LossOf(c, n), LossOf(c, m)) => Along(c, NodeOf(c, n).rgb) <= Along(c, NodeOf(c, m).rgb)),
+     \* the largest loss fully warm, zero loss fully cold (the two ends of that scale)
+     Cl("C19.HeatExtremes", ok /\ c.heat /\ c.hasscale,
         \A n \in N \cap rn :
-           /\ (posMax /\ maxL(n)) => NodeOf(c, n).rgb = <<255, 18, 16>>
-           /\ DIsZero(DJ(LossOf(c, n).num)) => NodeOf(c, n).rgb = <<33, 32, 255>>),
-     Cl("C19.Legend", ok /\ c.heat /\ "Scale" \in rn,
+           /\ (posMax /\ maxL(n)) => NodeOf(c, n).rgb = c.warm
+           /\ DIsZero(DJ(LossOf(c, n).num)) => NodeOf(c, n).rgb = c.cold),
+     Cl("C19.Legend", ok /\ c.heat /\ c.legendnode # "",
         \E n \in N : maxL(n) /\ c.haslegend /\ Shown(c.legend, LossOf(c, n)))
   >>
 
